@@ -208,7 +208,11 @@ func (w *World) groundResults(opts *RunOpts, d *SchemaDump) ([]*FuncResult, []bo
 	for _, ds := range schemas {
 		rel := strings.TrimPrefix(ds.Pkg, repoModule+"/")
 		fname := "ground." + strings.ReplaceAll(strings.TrimSuffix(rel, "/states"), "/", "_") + "." + ds.Name
-		res := &FuncResult{Name: fname, Key: fname, Contract: &Contract{Props: []string{"C19"}}, Sess: newSess()}
+		props := []string{"C19"}
+		if strings.HasSuffix(ds.Pkg, "/pkg/node/states") {
+			props = append(props, "C15")
+		}
+		res := &FuncResult{Name: fname, Key: fname, Contract: &Contract{Props: props}, Sess: newSess()}
 		sm, strs, maxLen := cSchema(ds)
 		names, haveNames := namesFor(d, ds)
 		for _, n := range names {
@@ -235,7 +239,7 @@ func (w *World) groundResults(opts *RunOpts, d *SchemaDump) ([]*FuncResult, []bo
 		ob := func(label, pred, text string, args ...string) {
 			t0 := time.Now()
 			ok, err := w.evalGround(pred, env, args...)
-			o := &Obl{Name: fname + "#ground." + label, Func: fname, Kind: "ground", Goal: "true", Props: []string{"C19"},
+			o := &Obl{Name: fname + "#ground." + label, Func: fname, Kind: "ground", Goal: "true", Props: props,
 				Text: text + " [" + pred + "]", Solver: "ground-eval", Seconds: time.Since(t0).Seconds()}
 			switch {
 			case err != "":
